@@ -65,6 +65,7 @@ DEFECT_CLAUSES = {
     "JustF3": {"UndecodableRaises", "NeverCompleteWhenOwed"},
     "JustF4": {"ConnNotReused"},
     "JustPW": {"CutNeverComplete", "NeverCompleteWhenOwed"},
+    "JustSLP": {"MalformedChunkRaises", "NeverCompleteWhenOwed"},
 }
 
 
@@ -306,6 +307,10 @@ def realize(fr, co, stacked, decode, enc, chunks, dk, at, var):
     elif dk in ("badsize", "negsize", "emptysize"):
         kind, idx = mw[at - 1]
         case["damage"] = {"kind": dk, "at": idx, "digit": var.get("digit", 0), "byte": var.get("byte", "g")}
+    elif dk == "junksize":                       # the right digits followed by junk: the CR replaced ("64X\n")
+        kind, idx = mw[at - 1]
+        ent = [x for x in lay if x[0] in ("size", "last") and x[3] == idx][0]
+        case["damage"] = {"kind": "sizebyte", "line": idx, "pos": ent[2] - ent[1] - 2, "byte": var.get("byte", "X")}
     elif dk == "corrupt":
         kind, idx = mw[at - 1]
         a, b = slots[idx - 1]
@@ -587,7 +592,7 @@ def runs_from_groups(groups, variants, seed):
                 skipped += 1
                 continue
             scale = var.get("scale", 1)
-            exact = co == "identity" and scale == 1 and dk in ("none", "cut", "badsize", "emptysize")
+            exact = co == "identity" and scale == 1 and dk in ("none", "cut", "badsize", "emptysize", "junksize")
             # the model's unit lengths transfer to bytes for identity bodies (exactly) and for intact decoded bodies
             # (deterministic calls); not for the raw view of a coded body, nor for a damaged coded stream, where how
             # much of it still decodes is the codec's business
